@@ -34,7 +34,7 @@
 using namespace asmjit;
 
 // Huge requests must come back as errors: make malloc of absurd sizes fail instead of reserving address space.
-extern "C" const char* __asan_default_options() { return "allocator_may_return_null=1:max_allocation_size_mb=64"; }
+extern "C" const char* __asan_default_options() { return "allocator_may_return_null=1:max_allocation_size_mb=64:quarantine_size_mb=32"; }
 
 const char* vh_property() { return "C18"; }
 
